@@ -2,7 +2,8 @@
  * expdrv - C19 harness: runs cimba_run_experiment (or a sequential reference) on a generated experiment, in-process
  * against the real library, and prints what happened.
  *
- * stdin: one scenario per process (a fresh process per run, so that no state is inherited):
+ * stdin: one or more scenario lines; every line is one experiment, all lines of one invocation run one after the other in the
+ * SAME process (a fresh process per invocation, so that nothing else is inherited):
  *     run <mode> <W> <n> <size> <seed> <delaypat> <delaymax_us> <kinds>
  *         mode      par      cimba_run_experiment
  *                   seq      the same trial function on elements 0..n-1, one after another, in the calling thread
@@ -14,7 +15,8 @@
  *         delaypat  0 none 1 random 2 increasing 3 decreasing 4 first-long 5 alternating 6 last-long   (busy-wait inside the trial)
  *         kinds     bit mask of what the trials contain (K_* below); with K_MIX the mask is varied per trial
  *
- * stdout:
+ * stdout, per experiment:
+ *     X <ordinal>                     start of the block of the ordinal-th experiment of this process
  *     P <W> <n> <size> <base>
  *     S <seq> <tid> <idx> <addr>      call of the trial function entered   (sorted by seq; seq is one global atomic counter)
  *     E <seq> <tid> <idx>             call about to return
@@ -528,15 +530,12 @@ static int cmp_ev(const void *a, const void *b)
     return (x->seq > y->seq) - (x->seq < y->seq);
 }
 
-int main(void)
+/* one experiment; several of them may follow each other in the same process (one `run` line each) */
+static int one_experiment(const char *mode, unsigned W, uint64_t n, uint64_t sz, uint64_t seed, unsigned pat, unsigned dmax,
+                          unsigned kinds, unsigned ordinal)
 {
-    char mode[16];
-    unsigned W, pat, dmax, kinds;
-    uint64_t n, sz, seed;
-    if (scanf(" run %15s %u %" SCNu64 " %" SCNu64 " %" SCNu64 " %u %u %u", mode, &W, &n, &sz, &seed, &pat, &dmax, &kinds) != 8) {
-        fprintf(stderr, "bad scenario line\n");
-        return 2;
-    }
+    printf("X %u\n", ordinal);
+    g_seq = 0; g_started = 0; g_ended = 0; g_extra = 0;
     if (sz < sizeof(struct trial_hdr) || n == 0) {
         fprintf(stderr, "size must be >= %zu and n > 0\n", sizeof(struct trial_hdr));
         return 2;
@@ -615,5 +614,25 @@ int main(void)
         }
     }
     printf("R %" PRIu64 " %" PRIu64 " %d\n", ended_at_return, g_extra, guard_ok);
+    fflush(stdout);
+    free(ths); free(g_ev); free(g_calls); free(g_notown); free(raw);
+    g_ev = NULL; g_calls = NULL; g_notown = NULL; g_base = NULL;
+    return 0;
+}
+
+int main(void)
+{
+    char mode[16];
+    unsigned W, pat, dmax, kinds, ordinal = 0;
+    uint64_t n, sz, seed;
+    int r;
+    while ((r = scanf(" run %15s %u %" SCNu64 " %" SCNu64 " %" SCNu64 " %u %u %u", mode, &W, &n, &sz, &seed, &pat, &dmax, &kinds)) == 8) {
+        const int rc = one_experiment(mode, W, n, sz, seed, pat, dmax, kinds, ordinal++);
+        if (rc != 0) return rc;
+    }
+    if (ordinal == 0 || r != EOF) {
+        fprintf(stderr, "bad scenario line\n");
+        return 2;
+    }
     return 0;
 }
